@@ -29,6 +29,10 @@ ASSUMPTIONS = [
     "weights, inputs and targets are small dyadic rationals, ridge in [1/4, 4], RLS alpha in [1/4, 4], LMS rates <= 1/16: float64 agrees with "
     "exact arithmetic far below the 1e-9 relative tolerance",
     "activations are exactly computable callables (identity, relu, hard-tanh, x/2)",
+    "history before the checked fit (earlier fit of the same object, run before fit, ESN from_state): the states the nodes hold when fit() is "
+    "called are OBSERVED on the real nodes and given to the Q model as initial states (the earlier run / fit itself is C02/C07 and an "
+    "unchecked first pass); a Model trains from them (default flags) or from zero (reset=True, or first fit of a not yet initialised model, "
+    "whose initialisation zeroes the states); the ESN node trains every sequence from the null reservoir state whatever its history",
     "state between sequences: Model.fit default (stateful=True, reset=False) carries every node's state from one sequence to the next; "
     "the explicit procedure does the same (Node.run is stateful); reset=True zeroes it at the start of every sequence in both",
 ]
@@ -76,11 +80,20 @@ def mk_input(i, name, d):
     return {"id": i, "name": name, "kind": "input", "idim": d, "odim": d}
 
 
-FIT_FAMILIES = ["chain", "inchain", "deep", "shortcut", "parallel", "entry-readout", "deep3", "esn", "cross-ok"]
+FIT_FAMILIES = ["chain", "inchain", "deep", "shortcut", "parallel", "entry-readout", "deep3", "esn", "cross-ok", "esn+hist", "model+hist"]
+# histories before the fit that is checked: the nodes then hold a non-zero state when fit() is called
+HISTORIES = ["refit", "run-then-fit", "refit-run-fit", "from_state"]
 EXOTIC = ["early-output-readout", "cross-stage-concat-order", "cross-stage-multi-source", "entry-readout-with-forward"]
 
 
 def gen_fit(rng, family):
+    hist = None
+    if family == "esn+hist":
+        family, hist = "esn", rng.choice(HISTORIES)
+    elif family == "model+hist":
+        family, hist = rng.choice(["chain", "inchain", "shortcut", "parallel", "deep"]), rng.choice(HISTORIES[:3])
+        if family == "deep":
+            hist = "refit"      # an unfitted first readout feeding a second reservoir: nothing to run before the first fit
     d = rng.randint(1, 2)
     o = rng.randint(1, 2)
     nodes, edges = [], []
@@ -156,6 +169,17 @@ def gen_fit(rng, family):
     if family == "esn":
         sc["reset"] = True     # ESN.fit resets the reservoir at the start of every sequence
         sc["xmode"] = "array"
+    if hist is not None:
+        sc["hist"] = hist
+        pre = []
+        if hist in ("refit", "refit-run-fit"):
+            pre.append({"op": "fit"})                                   # the same data, default flags
+        if hist in ("run-then-fit", "refit-run-fit"):
+            pre.append({"op": "run", "X": rows(rng, rng.randint(2, 4), d)})
+        sc["pre"] = pre
+        if hist == "from_state":                                        # ESN only: fit(..., from_state={reservoir: s})
+            units = len(nodes[0]["W"])
+            sc["from_state"] = {"0": [str(core.dyadic(rng, 4, 1)) for _ in range(units)]}
     return sc
 
 
@@ -170,7 +194,8 @@ class Built:
         self.nodes = {}
         for nd in sc["nodes"]:
             if nd["kind"] == "ridge":
-                self.nodes[nd["id"]] = Ridge(ridge=float(Fraction(nd["ridge"])), input_bias=nd["bias"], name="%s_%s" % (self.prefix, nd["name"]))
+                kw = {"output_dim": nd["odim"]} if sc.get("pre") and sc["pre"][0]["op"] == "run" else {}
+                self.nodes[nd["id"]] = Ridge(ridge=float(Fraction(nd["ridge"])), input_bias=nd["bias"], name="%s_%s" % (self.prefix, nd["name"]), **kw)
             else:
                 self.nodes[nd["id"]] = scen.build_node(nd, self.prefix)
         if sc["family"] == "esn":
@@ -235,9 +260,22 @@ def run_fit(sc):
     stg = staging_of(b)
     X, Y = b.data_args()
     ok, err = True, None
+    init = {}
     try:
+        for op in sc.get("pre", []):
+            if op["op"] == "fit":
+                b.model.fit(X, Y, warmup=sc["warmup"])
+            else:
+                b.model.run(fl(op["X"]))
+        if sc.get("pre"):
+            for i, n in b.byid.items():
+                if n.is_initialized and n.state() is not None:
+                    init[i] = np.asarray(n.state(), dtype=float).ravel().tolist()
         if sc["family"] == "esn":
-            b.model.fit(X, Y, warmup=sc["warmup"])
+            kw = {}
+            if sc.get("from_state"):
+                kw["from_state"] = {b.byid[int(i)].name: fl([v]) for i, v in sc["from_state"].items()}
+            b.model.fit(X, Y, warmup=sc["warmup"], **kw)
         else:
             b.model.fit(X, Y, warmup=sc["warmup"], reset=sc["reset"])
     except Exception as e:  # noqa: BLE001
@@ -248,7 +286,7 @@ def run_fit(sc):
             if nd["kind"] == "ridge":
                 n = b.nodes[nd["id"]]
                 par[nd["id"]] = {"W": np.asarray(n.Wout).tolist(), "b": np.asarray(n.bias).ravel().tolist()}
-    return b, {"ok": ok, "err": err, "order": order, "edges": edges, "parents": parents, "staging": stg, "params": par,
+    return b, {"ok": ok, "err": err, "order": order, "edges": edges, "parents": parents, "staging": stg, "params": par, "init": init,
                "inputs": [b.nid(n) for n in b.model.input_nodes]}
 
 
@@ -280,7 +318,8 @@ def fit_to_coq(sc, b, o):
         return "chk_fit_raises %s %s %s %s" % (g, coqlist([nat(i) for i in o["inputs"]]),
                                                coqlist([nat(int(i)) for i in sorted(sc["Y"], key=int)]), stg)
     obs = coqlist(["(%s, (%s, %s))" % (nat(i), qmat(p["W"]), qvec(p["b"])) for i, p in sorted(o["params"].items())])
-    return "chk_fit %s %s %s %s %s %s %s %s %s" % (coqlist(terms), g, X0, Y0, nat(sc["warmup"]), coqbool(sc["reset"]), stg,
+    init = coqlist(["(%s, %s)" % (nat(i), qvec(v)) for i, v in sorted(o.get("init", {}).items())])
+    return "chk_fit %s %s %s %s %s %s %s %s %s %s" % (coqlist(terms), g, X0, Y0, nat(sc["warmup"]), coqbool(sc["reset"]), init, stg,
                                                   coqbool(sc["expect"] == "valid"), obs)
 
 
@@ -474,7 +513,7 @@ def correspondence(ctx):
             keep.append({"scenario": jsonable(sc), "impl_error": repr(e)})
             continue
         keep.append({"scenario": jsonable(sc), "observed": jsonable(o)})
-        key = "%s:%s" % (sc["op"], sc["family"])
+        key = "%s:%s%s" % (sc["op"], sc["family"], "+" + sc["hist"] if sc.get("hist") else "")
         dist[key] = dist.get(key, 0) + 1
         if nontrivial(sc, o):
             nt.add(repr(jsonable(sc)))
@@ -498,31 +537,47 @@ def _viol(key, what, sc, expected=None, observed=None):
 
 def explicit_fit_real(sc):
     """The node-by-node procedure with real nodes: run every node over the data on its parents' outputs (upstream readouts already
-    fitted), fit each readout on what reaches it with its targets and the warm-up, feed its predictions downstream."""
-    b = Built(dict(sc, family="chain" if sc["family"] == "esn" else sc["family"]))
+    fitted), fit each readout on what reaches it with its targets and the warm-up, feed its predictions downstream.
+    State at fit time.  A Model trains from the states its nodes hold (default flags: carried from the earlier run / fit and from one
+    sequence to the next; reset=True: zero at the start of every sequence), so the history of the scenario is replayed node by node on
+    the copies before the pass that is compared.  The ESN node runs EVERY training sequence from the null reservoir state whatever
+    the ESN did before (run, earlier fit, from_state): its explicit procedure ignores the history."""
+    esn = sc["family"] == "esn"
+    b = Built(dict(sc, family="chain" if esn else sc["family"]))
     from reservoirpy.utils.graphflow import find_parents_and_children
     m = b.model
     par, _ = find_parents_and_children(m.edges)
-    seqs = [fl(s) for s in sc["X"]]
     ys = {int(i): [fl(s) for s in v] for i, v in sc["Y"].items()}
     inputs = set(n.name for n in m.input_nodes)
-    traj, out = {}, {}
     kinds = {nd["id"]: nd["kind"] for nd in sc["nodes"]}
-    for node in m.nodes:
-        i = b.nid(node)
-        srcs = [traj[p.name] for p in par.get(node, [])]
-        if node.name in inputs:
-            srcs.append(seqs)
-        ins = [np.hstack([s[j] for s in srcs]) for j in range(len(seqs))]
-        if kinds.get(i) == "ridge":
-            node.fit(ins if len(ins) > 1 else ins[0], ys[i] if len(ins) > 1 else ys[i][0], warmup=sc["warmup"])
-            out[i] = {"W": np.asarray(node.Wout).tolist(), "b": np.asarray(node.bias).ravel().tolist()}
-            traj[node.name] = [node.run(x) for x in ins]
-        elif i >= 100:                       # inserted Concat: side-by-side concatenation of its parents
-            traj[node.name] = [np.vstack([node.call([s[j][t:t + 1] for s in srcs]) for t in range(len(seqs[j]))]) for j in range(len(seqs))]
-        else:
-            traj[node.name] = [node.run(x, reset=sc["reset"]) for x in ins]
-    return out
+
+    def one_pass(seqs, fit, reset):
+        traj, out = {}, {}
+        for node in m.nodes:
+            i = b.nid(node)
+            srcs = [traj[p.name] for p in par.get(node, [])]
+            if node.name in inputs:
+                srcs.append(seqs)
+            ins = [np.hstack([s[j] for s in srcs]) for j in range(len(seqs))]
+            if kinds.get(i) == "ridge":
+                if fit:
+                    node.fit(ins if len(ins) > 1 else ins[0], ys[i] if len(ins) > 1 else ys[i][0], warmup=sc["warmup"])
+                    out[i] = {"W": np.asarray(node.Wout).tolist(), "b": np.asarray(node.bias).ravel().tolist()}
+                traj[node.name] = [node.run(x) for x in ins]
+            elif i >= 100:                       # inserted Concat: side-by-side concatenation of its parents
+                traj[node.name] = [np.vstack([node.call([s[j][t:t + 1] for s in srcs]) for t in range(len(seqs[j]))]) for j in range(len(seqs))]
+            else:
+                traj[node.name] = [node.run(x, reset=reset) for x in ins]
+        return out
+
+    seqs = [fl(s) for s in sc["X"]]
+    if not esn:
+        for op in sc.get("pre", []):
+            if op["op"] == "fit":
+                one_pass(seqs, True, False)
+            else:
+                one_pass([fl(op["X"])], False, False)
+    return one_pass(seqs, True, True if esn else sc["reset"])
 
 
 def _close(a, b):
@@ -539,6 +594,7 @@ EXOTIC_KEYS = {"early-output-readout": "fit-staging:early-stage-output-readout",
 def judge_fit(sc):
     fam = sc["family"]
     key0 = EXOTIC_KEYS.get(fam, "fit:%s" % fam)
+    hist = sc.get("hist")
     try:
         exp = explicit_fit_real(sc)
     except Exception as e:  # noqa: BLE001
@@ -551,9 +607,13 @@ def judge_fit(sc):
     for i, p in exp.items():
         got = o["params"].get(i)
         if got is None or not _close(p["W"], got["W"]) or not _close(p["b"], got["b"]):
-            return _viol(key0 if fam in EXOTIC_KEYS else "fit:params-differ:%s" % fam,
-                         "%s.fit gives readout %s other parameters than the explicit node-by-node procedure"
-                         % ("ESN" if fam == "esn" else "Model", [n["name"] for n in sc["nodes"] if n["id"] == i][0]), sc, p, got)
+            if hist and fam == "esn":
+                return _viol("esn-fit:depends-on-prior-state",
+                             "ESN.fit after history '%s' does not run every training sequence from the null reservoir state" % hist, sc, p, got)
+            return _viol(key0 if fam in EXOTIC_KEYS else "fit:params-differ:%s%s" % (fam, ":after-" + hist if hist else ""),
+                         "%s.fit gives readout %s other parameters than the explicit node-by-node procedure%s"
+                         % ("ESN" if fam == "esn" else "Model", [n["name"] for n in sc["nodes"] if n["id"] == i][0],
+                            " (history before the fit: %s)" % hist if hist else ""), sc, p, got)
     # array vs mapping: the other way of passing the same data gives the same parameters
     if fam != "esn":
         sc2 = dict(sc, xmode="mapping" if sc["xmode"] == "array" else "array")
@@ -675,7 +735,7 @@ def oracle(ctx, scale=1):
     out, dist = [], {}
     for sc in cases:
         v = judge_fit(sc) if sc["op"] == "fit" else judge_train(sc)
-        key = "%s:%s" % (sc["op"], sc["family"])
+        key = "%s:%s%s" % (sc["op"], sc["family"], "+" + sc["hist"] if sc.get("hist") else "")
         dist[key] = dist.get(key, 0) + 1
         if v:
             out.append(v)
